@@ -410,6 +410,10 @@ func (c *Client) Hash(ctx context.Context, url string, n uint64) ([]byte, error)
 		const tag = "eth_getBlockByNumber/hash"
 		return nil, fmt.Errorf("rpc=%s missing result for block: %d", tag, n)
 	}
+	if uint64(hresp.Number) != n {
+		const tag = "eth_getBlockByNumber/hash"
+		return nil, fmt.Errorf("rpc=%s rpc response contains invalid data. requested: %d got: %d", tag, n, hresp.Number)
+	}
 	return hresp.Hash, nil
 }
 
